@@ -1,10 +1,14 @@
 (* c08 driver.  stdin: one case per line.
      S a b | text cps                 -> span_to_range;  "P" or "l1 c1 l2 c2"
      R l1 c1 l2 c2 | text cps         -> range_to_span;  "P" or "a b"
-     V l c | text cps                 -> resolve (spec); "N" or "i"
+     V l c | text cps                 -> resolve (spec, lines end at LF); "N" or "i"
+     W l c | text cps                 -> resolve_lsp (spec, lines end at LF / CRLF / CR); "N" or "i"
+     D l1 c1 l2 c2 | text cps | nt    -> client_apply_lsp (spec); "N" or "O cps"
      E kind a b | text cps | cs cps   -> text_edit;      "P" or "l1 c1 l2 c2 | cps"
      C l1 c1 l2 c2 | text cps | nt    -> client_apply (spec); "N" or "O cps"
-     A kind a b | text cps | cs cps   -> Suggestion::apply;   "P" or "O cps" *)
+     A kind a b | text cps | cs cps   -> Suggestion::apply;   "P" or "O cps"
+   with the argument --fixed, R runs range_to_span_fixed (the code with fixes/F9.diff applied) *)
+let fixed = Array.exists (fun a -> a = "--fixed") Sys.argv
 let i = int_of_nat
 let n = nat_of_int
 let () =
@@ -24,7 +28,7 @@ let () =
       | 'R', [hd; t] ->
           (match ints_of_line hd with
            | [l1; c1; l2; c2] ->
-               (match run_range_to_span (text_of_line t) (n l1) (n c1) (n l2) (n c2) with
+               (match (if fixed then run_range_to_span_fixed else run_range_to_span) (text_of_line t) (n l1) (n c1) (n l2) (n c2) with
                 | None -> "P"
                 | Some (a, b) -> Printf.sprintf "%d %d" (i a) (i b))
            | _ -> "?")
@@ -34,6 +38,20 @@ let () =
                (match run_resolve (text_of_line t) (n l1) (n c1) with
                 | None -> "N"
                 | Some a -> string_of_int (i a))
+           | _ -> "?")
+      | 'W', [hd; t] ->
+          (match ints_of_line hd with
+           | [l1; c1] ->
+               (match run_resolve_lsp (text_of_line t) (n l1) (n c1) with
+                | None -> "N"
+                | Some a -> string_of_int (i a))
+           | _ -> "?")
+      | 'D', [hd; t; nt] ->
+          (match ints_of_line hd with
+           | [l1; c1; l2; c2] ->
+               (match run_client_apply_lsp (text_of_line t) (n l1) (n c1) (n l2) (n c2) (text_of_line nt) with
+                | None -> "N"
+                | Some r -> String.trim ("O " ^ line_of_text r))
            | _ -> "?")
       | 'E', [hd; t; cs] ->
           (match ints_of_line hd with
